@@ -239,15 +239,24 @@ func (db *DB) loadSchema(of Object) (s *Schema, err error) {
 
 func (db *DB) startAsyncWritesRoutine(s *Schema) {
 	step := time.Millisecond * 100
-	if s.asyncWritesEnabled() && !s.AsyncWrites.routineStarted {
-		s.AsyncWrites.routineStarted = true
+	if s.asyncWritesEnabled() && !s.asyncRoutineStarted {
+		s.asyncRoutineStarted = true
 		go func() {
 			for db.ctx.Err() == nil {
-				for slept := time.Duration(0); ; slept += step {
-					n := db.safeCountPendingAsyncW(s.object)
-					if n >= s.AsyncWrites.Threshold || slept >= s.AsyncWrites.Timeout {
+				for slept := time.Duration(0); db.ctx.Err() == nil; slept += step {
+					// settings may be changed by Create, they are read under lock
+					n, threshold, timeout, enabled := db.safeAsyncWState(s)
+					if !enabled {
+						// nothing to do until async writes are enabled again
+						slept = 0
+					} else if n >= threshold || slept >= timeout {
 						// enter critical section
 						db.Lock()
+						// the routine ends with its schema (database dropped)
+						if db.schemas[stype(s.object)] != s {
+							db.Unlock()
+							return
+						}
 						// checking db.ctx not to race with db.Close function
 						if db.ctx.Err() == nil {
 							if err := db.flushAllAndCommit(s.object); err != nil {
@@ -265,10 +274,15 @@ func (db *DB) startAsyncWritesRoutine(s *Schema) {
 	}
 }
 
-func (db *DB) safeCountPendingAsyncW(of Object) (n int) {
+func (db *DB) safeAsyncWState(s *Schema) (n, threshold int, timeout time.Duration, enabled bool) {
 	db.RLock()
 	defer db.RUnlock()
-	return db.asyncw.count(of)
+	if enabled = s.asyncWritesEnabled(); enabled {
+		threshold = s.AsyncWrites.Threshold
+		timeout = s.AsyncWrites.Timeout
+	}
+	n = db.asyncw.count(s.object)
+	return
 }
 
 func (db *DB) schema(of Object) (s *Schema, err error) {
@@ -282,7 +296,14 @@ func (db *DB) schema(of Object) (s *Schema, err error) {
 		return
 	}
 
-	return db.loadSchema(of)
+	s, err = db.loadSchema(of)
+	// the schema may just have been cached: pending writes of the very
+	// first calls must be flushed even if no other call follows
+	if cs, ok := db.schemas[stype(of)]; ok {
+		db.startAsyncWritesRoutine(cs)
+	}
+
+	return
 }
 
 func (db *DB) itemname(o Object) string {
@@ -797,6 +818,11 @@ func (db *DB) Count(of Object) (n int, err error) {
 func (db *DB) Drop() (err error) {
 	db.Lock()
 	defer db.Unlock()
+
+	// nothing of the dropped database must be written back
+	db.schemas = map[string]*Schema{}
+	db.cache = newObjectStore()
+	db.asyncw = newObjectStore()
 
 	return os.RemoveAll(db.root)
 }
